@@ -6,6 +6,7 @@ import DateutilVerif.Proofs.TzObjEqICal
 import DateutilVerif.Proofs.TzObjEqStr
 import DateutilVerif.Proofs.TzStrWk
 import DateutilVerif.Proofs.TzObjEqLocal
+import DateutilVerif.Properties.TzGen
 
 open Py DtPy ObjPy TzGen
 
@@ -157,6 +158,29 @@ end C05
 
 namespace C04
 open TZ
+
+/-- `@_validate_fromutc_inputs`: ValueError unless the datetime is attached to the zone, otherwise the wrapped method -/
+theorem gen_eq_model_validate_fromutc_inputs (g : Dt → R Dt) (d : Dt) :
+    Gen.validateFromutcInputs g d = if d.attached then g d else .error .ValueError :=
+  validate_eq g d
+
+/-- the PUBLIC `fromutc` of the three zone families = decorator ∘ translated body: equal to the model on attached
+    datetimes, ValueError on a datetime of another zone (or naive) -/
+theorem gen_eq_model_fromutc_decorated (zr : RangeZone) (zg : GenericZone) (t f : Int) (h0 : 0 ≤ f) (h1 : f < M) :
+    Gen.validateFromutcInputs (Gen.tzrange_fromutc zr) (D t f false true) =
+      ((zr.fromutc t).map fun w => D w.wall f w.fold true) ∧
+    Gen.validateFromutcInputs (Gen.tzinfo_fromutc zg) (D t f false true) =
+      .ok (D (zg.fromutc t).wall f (zg.fromutc t).fold true) ∧
+    (∀ g fold, Gen.validateFromutcInputs g (D t f fold false) = .error .ValueError) := by
+  refine ⟨?_, ?_, fun g fold => validate_detached g t f fold⟩
+  · rw [validate_attached]; exact range_fromutc_eq zr t f h0 h1
+  · rw [validate_attached]; exact generic_fromutc_eq zg t f true h0 h1
+
+theorem gen_eq_model_tzfile_fromutc_decorated (r : TZ.Raw) (hwf : Spec.wf r = true) (hne : r.trans ≠ []) (t f : Int)
+    (h0 : 0 ≤ f) (h1 : f < M) :
+    Gen.validateFromutcInputs (Gen.tzfile_fromutc (build r)) (D t f false true) =
+      (TZ.fromutc (build r) t).map fun w => D w.wall f w.fold true := by
+  rw [validate_attached]; exact C04.gen_eq_model_fromutc r hwf hne t f h0 h1
 
 /-- the offsets the generic `_tzinfo.fromutc` (C04.gen_eq_model_tzinfo_fromutc) reads for a tzlocal -/
 theorem gen_eq_model_tzlocal_utcoffset (z : RangeZone) (w f : Int) (fold att : Bool) (h0 : 0 ≤ f) (h1 : f < M) :
